@@ -82,7 +82,7 @@ class FSArray(Sequence):
     ) -> Union[FmtStr, List[FmtStr]]:
         if isinstance(slicetuple, int):
             if slicetuple < 0:
-                slicetuple = len(self.rows) - slicetuple
+                slicetuple = len(self.rows) + slicetuple
             if slicetuple < 0 or slicetuple >= len(self.rows):
                 raise IndexError("out of bounds")
             return self.rows[slicetuple]
